@@ -203,6 +203,19 @@ type session struct {
 	payload []int // message indices of payload chunks
 	check   []int
 	resp    int // index of seed2; x,t0,t1 follow
+	// chiSeed: the key of the last PRG the honest receiver created in this session = the seed of the challenge
+	// coefficients of the HONEST run as the code under test derives it (observed through the overlay's newPrg wrapper;
+	// nil without the overlay). Whoever alters the matrices in transit knows the code and can compute it.
+	chiSeed *ot.Label
+}
+
+// knownSeed: the coefficients' seed as it can be known BEFORE an alteration is chosen: observed from the honest run
+// when the overlay provides the hook, else the harness's own derivation from the unaltered transcript.
+func knownSeed(s *session) ot.Label {
+	if s.chiSeed != nil {
+		return *s.chiSeed
+	}
+	return checkSeed(s.msgs, s)
 }
 
 var (
@@ -243,9 +256,14 @@ func getSession(n int, choices string, seed uint64, generic bool) *session {
 	if err != nil {
 		panic(err)
 	}
-	if err := r.Receive(s.flags, s.recv, true); err != nil {
+	var last *ot.Label
+	setPrgHook(func(k ot.Label) { kk := k; last = &kk })
+	err = r.Receive(s.flags, s.recv, true)
+	setPrgHook(nil)
+	if err != nil {
 		panic(err)
 	}
+	s.chiSeed = last
 	s.msgs = b.Sent
 	// classify messages: 256 base labels, then data chunks, then 4 labels
 	rows := 0
@@ -402,7 +420,7 @@ func runCase(ctx *runner.Ctx, k cs) {
 			return
 		}
 		// the coefficients as they can be known BEFORE the alteration is chosen (from the unaltered transcript)
-		seed2 := checkSeed(s.msgs, s)
+		seed2 := knownSeed(s)
 		target := chiLabel(seed2, f.Row)
 		var basis []ot.Label
 		for j := 0; j < 256; j++ {
@@ -425,7 +443,7 @@ func runCase(ctx *runner.Ctx, k cs) {
 		if len(s.payload) != 1 || k.N > 256 || k.N < 130 {
 			return
 		}
-		seed2 := checkSeed(s.msgs, s)
+		seed2 := knownSeed(s)
 		target := chiLabel(seed2, f.Row)
 		var basis []ot.Label
 		var rows []int
@@ -747,6 +765,21 @@ func work(ctx *runner.Ctx) {
 		ctx.Note("both carry-less multipliers exercised: the amd64 CLMUL assembly and the portable mul128Generic (selected through the check-time overlay), each compared with the harness's own product and run through the honest and fault families")
 	} else {
 		ctx.Note("the overlay that exposes the portable multiplier could not be derived from the tree: only the build's own mul128 ran")
+	}
+	if havePrgHook {
+		s0 := getSession(9, "alt", 424242, false)
+		derived := "none of the derivations the harness knows"
+		for _, m := range []string{"all", "none", "check", "payload"} {
+			old := bindMode
+			bindMode = m
+			if s0.chiSeed != nil && checkSeed(s0.msgs, s0) == *s0.chiSeed {
+				derived = "the harness's own derivation '" + m + "' (SHA-256 over: all = payload and check matrices, check / payload = that batch only, none = nothing; then the receiver's seed)"
+			}
+			bindMode = old
+		}
+		ctx.Note("challenge coefficients of the honest run are OBSERVED (every PRG key the extension creates is reported through the check-time overlay's newPrg wrapper; the last one of the receiver's run seeds the coefficients) and the kernel alterations are computed from them; they equal " + derived)
+	} else {
+		ctx.Note("the overlay that reports PRG keys could not be derived from the tree: the kernel alterations use the harness's own derivation of the coefficients (mode " + bindMode + ")")
 	}
 	// two flips in one column in different batches or chunks (the challenge coefficients of the two rows must
 	// differ): every (payload row, check row) pair for a small batch; for multi-chunk batches every payload row
